@@ -658,6 +658,7 @@ class AioWorld(WorldBase):
                     rec.handler = "cancelled"
                 elif task.exception() is not None:
                     rec.handler = f"exc:{_exc_repr(task.exception())}"
+                    rec.handler_exc = task.exception()
                 else:
                     rec.handler = "ok"
         self.live_tasks = []
